@@ -48,7 +48,8 @@ def config_variants(tier):
     if tier == "thorough":
         y2 = sa.overlay_yaml({os.path.join(REPO, "config.h"): sa.config_h_variant("debug")},
                              os.path.join(scratch(), "ov-debug.yaml"))
-        us = compdb.c_units()
+        # configure links tal-debug.o INSTEAD of tal-reent.o in this mode
+        us = [u for u in compdb.c_units() if u.rel != "tal-reent.c"]
         for extra in ("tal-debug.c",):
             if not os.path.exists(os.path.join(REPO, extra)):
                 raise AnalysisBroken("R-GLOBAL: %s vanished" % extra)
